@@ -161,6 +161,30 @@ def blank_invariance(s: str, i: int) -> bool:
     return _tag_texts(s) == _tag_texts(s2)
 
 
+def _tree_texts(children):
+    out = []
+    for c in children:
+        if isinstance(c, HedTag):
+            out.append(c.org_tag)
+        else:
+            out.append(_tree_texts(c.children))
+    return out
+
+
+def blank_tree_invariance(s: str, i: int) -> bool:
+    """
+    pre: 1 <= len(s) <= R.N(3)
+    pre: R.scell(s)
+    pre: R.ascii_printable(s)
+    pre: 0 <= i <= len(s)
+    pre: (i < len(s) and s[i] in ",()") or (i > 0 and s[i - 1] in ",()")
+    post: _
+    """
+    # the parse tree (nesting and tag texts) is the same with one more blank next to a comma or parenthesis
+    s2 = s[:i] + " " + s[i:]
+    return _tree_texts(HedString(s, NOSCHEMA).children) == _tree_texts(HedString(s2, NOSCHEMA).children)
+
+
 _TD = ["hed.models.hed_group.HedGroup._sorted", "hed.validator.util.group_util.GroupValidator._check_for_duplicate_groups",
        "hed.validator.util.group_util.GroupValidator._check_for_duplicate_groups_recursive",
        "hed.models.hed_tag.HedTag.__eq__", "hed.models.hed_string.HedString.split_into_groups"]
@@ -198,6 +222,14 @@ HARNESSES = [
         quick=R.tier(cells=R.int_cells("VP_K", 0, 15), timeout=200, bound="shape x1,x2,x3,(x4,x1), xi in {a,b,A,B}, 6 orders of the top-level tags"),
         what="repeated top-level tag reported wherever the copies sit and in whatever letter case",
         oracle="as dup_groups", stubs=_ST, outside="as dup_groups"),
+    R.H("blank_tree_invariance", ["hed.models.hed_string.HedString.split_into_groups",
+                                  "hed.models.hed_string.HedString.split_hed_string", "hed.models.hed_string.HedString.__init__"],
+        quick=R.tier(cells=R.str_cells(3, split1_from=3, minlen=1), env={"VP_N": 3}, timeout=300,
+                     bound="every printable-ASCII s, 1 <= len(s) <= 3, one blank inserted next to a comma or parenthesis"),
+        thorough=R.tier(cells=R.str_cells(4, split1_from=3, split2_from=4, minlen=1), env={"VP_N": 4}, timeout=1500,
+                        bound="same with len(s) <= 4"),
+        what="the parse tree (nesting and tag texts) is unchanged by the inserted blank",
+        oracle="second run of the real parser", stubs=_ST, outside="longer strings"),
     R.H("blank_invariance",
         ["hed.validator.util.string_util.StringValidator.check_delimiter_issues_in_hed_string",
          "hed.models.hed_string.HedString.split_hed_string"],
